@@ -2,6 +2,7 @@
   C09 — Only healthy targets receive traffic, in fair rotation.
 -/
 import KamalProxy.Proofs.Proxy
+import KamalProxy.Model.Request
 namespace KamalProxy.C09
 open KamalProxy KamalProxy.Proxy
 
@@ -14,7 +15,7 @@ theorem C09_rotation_fair (k s : Nat) (hk : 0 < k) :
   ⟨fun p hp => window_hits_all k s p hk hp, fun i j hi hj h => window_injective k s i j hi hj h⟩
 
 /-- A claim only ever returns a member of the current rotation, at the next position. -/
-theorem C09_claim_from_rotation {w w' : World} {lb rid tid : Nat} (h : claim w lb rid = (w', some tid)) :
+theorem C09_claim_from_rotation {w w' : World} {lb rid tid : Nat} (h : Proxy.claim w lb rid = (w', some tid)) :
     ∃ l, getL w lb = some l ∧ tid ∈ l.healthy ∧ l.healthy[(l.idx + 1) % l.healthy.length]? = some tid := by
   obtain ⟨l, _, hl, hm, _, _, hi⟩ := claim_some h
   exact ⟨l, hl, hm, hi⟩
@@ -28,7 +29,7 @@ theorem C09_refresh_exact {w : World} {lb : Nat} {l : Lb} (hl : getL w lb = some
 /-- No healthy target: nothing is claimed (the request is answered 503, not sent to a failing
     target). -/
 theorem C09_empty_503 {w : World} {lb rid : Nat} {l : Lb} (hl : getL w lb = some l) (he : l.healthy = []) :
-    claim w lb rid = (w, none) := claim_empty hl he
+    Proxy.claim w lb rid = (w, none) := claim_empty hl he
 
 /-- A failed probe takes a healthy target out (state unhealthy, rotation refreshed because the
     state changed); only a successful probe brings a target (back) in. -/
@@ -67,5 +68,47 @@ example : (runOps [.deploy 1 (asciiB "s1") (asciiB "s1") false [asciiB "a:80", a
     .target (asciiB "a:80") .fail, .advance 1000000001,
     .req 1 (asciiB "s1") [] false, .req 2 (asciiB "s1") [] false]).events.filter (·.startsWith "done") =
     ["done r1 status=200 by=b:80", "done r2 status=200 by=b:80"] := by decide +kernel
+
+/-! ### the sequential model with failing targets (`State.sick`, world events `sicken` / `heal`) -/
+
+theorem claim_mem {s s' : State} {n : Bytes} {sl : Slot} {ts : List Bytes} {t : Bytes}
+    (h : KamalProxy.claim s n sl ts = (s', some t)) : t ∈ ts := by
+  unfold KamalProxy.claim at h
+  split at h
+  · cases h
+  · simp only [Prod.mk.injEq] at h
+    exact List.mem_of_getElem? h.2
+
+/-- **A target whose latest probe failed receives no request**, for every router state (any history of commands
+    and restarts, any set of failing targets) and every request: whatever `serve` forwards to is not in `sick`.
+    (The concurrent model shows where this fails *during a drain* — finding F19.) -/
+theorem C09_sick_never_served (s : State) (r : Req) (n t : Bytes) (sl : Slot) (strip : Option Bytes)
+    (h : (serve s r).2 = .forwarded n t sl strip) : t ∉ s.sick := by
+  unfold serve at h
+  split at h
+  · cases h
+  · split at h
+    · cases h
+    · rename_i v _
+      split at h
+      · cases h
+      · split at h
+        · cases h
+        · split at h
+          · cases h
+          · split at h
+            · cases h
+            · cases h
+            · simp only at h
+              generalize hc : KamalProxy.claim s v.name (pickSlot v r.cookies) _ = res at h
+              obtain ⟨s', ot⟩ := res
+              cases ot with
+              | none => cases h
+              | some t' =>
+                simp only [Outcome.forwarded.injEq] at h
+                have hm := claim_mem hc
+                rw [h.2.1] at hm
+                have := (List.mem_filter.mp hm).2
+                simpa using this
 
 end KamalProxy.C09
